@@ -68,6 +68,22 @@ def exprs(budget):
                 yield e
 
 
+def chains():
+    """Flat chains of 3 and 4 operands (`a and b and c`, `a ^ b v c ^ d`, with some operands negated): longer than the
+    token budget reaches, and exactly where an n-ary AST node (ast.BoolOp has a LIST of values) differs from a binary one."""
+    names = [("name", n) for n in NAMES]
+    for n in (3, 4):
+        for ops in itertools.product(("and", "or"), repeat=n - 1):
+            for negs in itertools.product((False, True), repeat=n):
+                if sum(negs) > 1:
+                    continue
+                operands = [("not", names[k]) if negs[k] else names[k] for k in range(n)]
+                e = operands[0]
+                for op, right in zip(ops, operands[1:]):
+                    e = (op, e, right)  # left-associative, as both grammars parse a flat chain
+                yield e
+
+
 def cost(e):
     k = e[0]
     if k in ("name", "lit"):
@@ -153,7 +169,7 @@ def run(budget, limit_s, seed):
     n_expr = n_cases = 0
     known = {"R7": 0, "R8": 0}
     samples = []
-    for e in exprs(budget):
+    for e in itertools.chain(chains(), exprs(budget)):
         if time.time() - t0 > limit_s:
             break
         n_expr += 1
